@@ -202,6 +202,7 @@ def _kw_cycle(i, seed, **base):
     kw.setdefault("sub_events", i % 8 == 5)
     kw.setdefault("reuse_evs", i % 9 == 4)
     kw.setdefault("peek", i % 5 == 1)
+    kw.setdefault("legacy_unplug", i % 4 == 2)
     kw.setdefault("late_scheduler", i % 5 == 2)
     kw.setdefault("np_ints", i % 6 == 4)
     kw.setdefault("aware_start", i % 7 == 3)
